@@ -131,21 +131,19 @@ func init() {
 			"a raw-mode shadow twin receives the captured RequestBeginBlock of each block, then only the transactions whose code was 0, then EndBlock/Commit. Oracle: same app hash every block, same code/data/gas for every surviving transaction, same validator updates. " +
 			"Block gas limit none/40M/8M per run; the running gas total is exempt: contracts never read GASLIMIT, and once the consumed total of a block reaches the limit (read from the deliver state after the block) the rest of the run is not judged. Non-trivial: >=2 failed transactions removed, >=1 successful transaction after a failed one in the same block, >=5 blocks; distinct = distinct fingerprints.",
 		MakeSetup: func(rng *rand.Rand, tier string, seed uint64) *Setup {
-			k := SwarmKnobs(rng)
-			k.MaxGas = []int64{-1, 40000000, 8000000}[rng.Intn(3)]
-			su := &Setup{Knobs: k, Sess: gen.NewSession()}
+			nb := 12 + rng.Intn(25)
+			if tier == "thorough" {
+				nb = 15 + rng.Intn(50)
+			}
+			su := drawWorkload(rng, tier, seed, 3, nb)
+			su.Knobs.MaxGas = []int64{-1, 40000000, 8000000}[rng.Intn(3)]
 			// GASLIMIT makes the running gas total (exempt by the property) visible to contracts
 			su.Sess.M["olvm-no-gaslimit"] = true
 			gen.OlvmNoGaslimit = true
 			su.Replicas = append(su.Replicas, core.ReplicaConf{Identity: "x0", Quiet: true, Recent: 10, Every: 100, Cycles: 10, WitnessInitEarly: true})
-			su.Gens = allGens(rng)
 			su.Gens = append(su.Gens, gen.Failures{})
-			su.Blocks = 12 + rng.Intn(25)
-			if tier == "thorough" {
-				su.Blocks = 15 + rng.Intn(50)
-			}
 			su.MaxTx = 14
-			su.PlanHook = AbsentHook(0.05)
+			su.PlanHook = chainPlan(su.PlanHook, AbsentHook(0.05))
 			return su
 		},
 		MakeOracle: func(e *core.Engine, tr *core.Trace) Oracle { return &c06Oracle{} },
